@@ -102,9 +102,11 @@ func isDirectiveLine(line string) bool {
 		"payee ", "P ", "D ", "Y ", "tag ",
 	}
 
-	trimmed := strings.TrimLeft(line, " \t")
+	// a directive starts in column 0; an indented line is a subdirective or a
+	// posting (treating it as a directive made every indented "P " line scan
+	// all the indented lines after it)
 	for _, d := range directives {
-		if strings.HasPrefix(trimmed, d) {
+		if strings.HasPrefix(line, d) {
 			return true
 		}
 	}
